@@ -45,6 +45,7 @@ namespace Givaro {
         // Horner like evaluation of the polynomial for p = _domain.size()
         template<class vect>
         IntegerDom::Element& eval( IntegerDom::Element& E, const vect& P) {
+            if (P.begin() == P.end()) return E = IntegerDom::zero; // the zero polynomial
             typename vect::const_reverse_iterator pi = P.rbegin();
             _domain.convert(E, *pi);
             for (++pi;pi != P.rend();++pi) {
@@ -58,6 +59,7 @@ namespace Givaro {
         // Gain is 40% to 75% compared to Integers !!!
         template<class vect>
         uint64_t& eval( uint64_t& E, const vect& P) {
+            if (P.begin() == P.end()) return E = 0; // the zero polynomial
             typename vect::const_reverse_iterator pi = P.rbegin();
             _domain.convert(E,*pi);
             for (++pi;pi != P.rend();++pi) {
@@ -70,6 +72,7 @@ namespace Givaro {
 
         template<class unsignedinttype, class vect>
         unsignedinttype& eval( unsignedinttype& E, const vect& P) {
+            if (P.begin() == P.end()) return E = unsignedinttype(0); // the zero polynomial
             typename vect::const_reverse_iterator pi = P.rbegin();
             _domain.convert(E,*pi);
             for (++pi;pi != P.rend();++pi) {
@@ -82,6 +85,7 @@ namespace Givaro {
 
         template<class elem, class vect>
         elem& evaldirect( elem& E, const vect& P) {
+            if (P.begin() == P.end()) return E = elem(0); // the zero polynomial
             typename vect::const_reverse_iterator pi = P.rbegin();
             E = elem(*pi);
             for (++pi;pi != P.rend();++pi) {
